@@ -23,6 +23,17 @@ def job(scn, cfg, monitors, require_clean=True, deadline=None):
     }
 
 
+def bounded(s, tier, base, big=(3, 5), huge=(2, 3)):
+    """Full interleaving for small shapes; deviation-bounded for big / huge ones."""
+    cfg = dict(base)
+    q = 0 if tier == "quick" else 1
+    if gen.is_big(s):
+        cfg["dev"] = big[q]
+    if gen.is_huge(s):
+        cfg["dev"] = huge[q]
+    return cfg
+
+
 def _filter(jobs, only):
     if only:
         jobs = [j for j in jobs if only in j["scn"]["name"]]
@@ -63,14 +74,14 @@ def c01(tier, seed, only=None):
     t0 = time.time()
     mons = [FL + "Justified"]
     jobs = []
-    for s in gen.f2_all(tier):
-        jobs.append(job(s, dict(horizon=60), mons))
+    for s in gen.f2_all(tier) + gen.f6_publish(tier):
+        jobs.append(job(s, bounded(s, tier, dict(horizon=60), big=(4, 6), huge=(2, 4)), mons))
     n1 = 2 if tier == "quick" else 2
     for s in gen.f1_all(n1):
         jobs.append(job(s, dict(horizon=40), mons))
     dev = 2 if tier == "quick" else 3
     for s in gen.f3_all():
-        jobs.append(job(s, dict(dev=dev, horizon=150), mons))
+        jobs.append(job(s, dict(dev=gen.f3_dev(s, tier), horizon=150), mons))
     jobs = _filter(jobs, only)
     results = runner.run_jobs(jobs, seed=seed)
     rule = (
@@ -90,12 +101,12 @@ def c07(tier, seed, only=None):
     for s in gen.f2_all(tier):
         if "join" not in json.dumps(s.wf):
             continue
-        jobs.append(job(s, dict(horizon=60), mons))
+        jobs.append(job(s, bounded(s, tier, dict(horizon=60), big=(None, None), huge=(3, 5)), mons))
     dev = 2 if tier == "quick" else 3
     for s in gen.f3_all():
         if "join" not in json.dumps(s.wf):
             continue
-        jobs.append(job(s, dict(dev=dev, horizon=150), mons))
+        jobs.append(job(s, dict(dev=gen.f3_dev(s, tier), horizon=150), mons))
     jobs = _filter(jobs, only)
     results = runner.run_jobs(jobs, seed=seed)
     rule = (
@@ -179,11 +190,12 @@ P = "vx.monitors.persist."
 def _persist_jobs(tier, mons, crash):
     jobs = []
     for s in gen.f2_all(tier):
-        big = s.meta.get("big")
         cfg = dict(crash=crash, horizon=60, pause=1, resume=1, cancel=1)
         cfg["dev"] = 2 if tier == "quick" else 3
-        if not big and tier != "quick":
+        if not gen.is_big(s) and tier != "quick":
             cfg["dev"] = 4
+        if gen.is_huge(s):
+            cfg["dev"] = 1 if tier == "quick" else 2
         jobs.append(job(s, cfg, mons))
         jobs.append(job(s, dict(crash=crash, horizon=60, rerun=1, rerun_mode="tasks", dev=cfg["dev"]), mons))
     for s in gen.f4_all(tier) + gen.f5_all(tier):
@@ -244,6 +256,8 @@ def _ctrl_jobs(tier, mons, base_cfg, families=("F2", "F4", "F5"), big_dev=None):
         cfg = dict(base_cfg)
         if gen.is_big(s):
             cfg["dev"] = big_dev if big_dev is not None else (2 if tier == "quick" else 3)
+        if gen.is_huge(s):
+            cfg["dev"] = 1 if tier == "quick" else 2
         jobs.append(job(s, cfg, mons))
     return jobs
 
@@ -411,6 +425,8 @@ def c17(tier, seed, only=None):
                    horizon=70)
         if gen.is_big(s):
             cfg["dev"] = 3 if tier == "quick" else 5
+        if gen.is_huge(s):
+            cfg["dev"] = 2 if tier == "quick" else 3
         jobs.append(job(s, cfg, mons))
         if tier != "quick":
             cfg2 = dict(cfg)
